@@ -1078,6 +1078,11 @@ func (in *Interp) callBuiltin(fn *ssa.Builtin, args []Value) Value {
 		m := args[0].(*MapObj)
 		m.del(in.mapKey(args[1]))
 		return nil
+	case "ssa:wrapnilchk":
+		if p, ok := args[0].(*Value); ok && p == nil {
+			in.goPanic("nil-deref", "value method called using nil pointer")
+		}
+		return args[0]
 	case "print", "println":
 		return nil
 	case "recover":
